@@ -271,7 +271,14 @@ def _worker_init(home, env_extra):
         sys.path.remove(SRC)
     sys.path.insert(0, SRC)
     signal.signal(signal.SIGALRM, _alarm)
-    sys.setrecursionlimit(10000)
+    # the process state a user's `ka` has, not the harness's: the check process may have raised the recursion limit,
+    # lifted CPython's integer-digit limit or changed the decimal context for its own oracles, and a forked worker
+    # would inherit all of that (Ka then sets what it sets itself when it is imported below)
+    import decimal
+    sys.setrecursionlimit(int(os.environ.get("KA_VERIF_RECURSION_LIMIT", "1000")))
+    if hasattr(sys, "set_int_max_str_digits"):
+        sys.set_int_max_str_digits(4300)
+    decimal.setcontext(decimal.DefaultContext.copy())
 
 
 def _worker_call(args):
